@@ -167,7 +167,7 @@ package keyvalue
 //@   nopanic
 
 //@ spec memStoreOf(store Store) := store.(*mem.store)
-//@ spec storeUnlocked(store Store) := implies(isType(store, *mem.store), memStoreOf(store) != nil && !held(memStoreOf(store).mu))
+//@ spec storeUnlocked(store Store) := implies(isType(store, *mem.store), mem.storeInv(memStoreOf(store)) && !held(memStoreOf(store).mu))
 
 //@ func TransactionOrSerial(store Store, options TransactionOptions) (txn Transaction, err error)
 //@   props C18 C14
@@ -209,13 +209,21 @@ package keyvalue
 // ---- lazily evaluated record view of a handle (record.go) ----
 
 //@ spec roInv(r *runOnceFileRecord) := r != nil && r.record != nil && (r.dataDone == 0 || r.dataDone == 1) && iff(r.dataDone == 1, oncedone(r.dataOnce)) &&
-//@        implies(r.dataDone == 1 && r.dataErr == nil, r.data != nil)
-//@ spec recDataBlob(r *runOnceFileRecord) := ret("keyvalue.(FileRecord).Data", 0, r.record)
-//@ spec recDataErr(r *runOnceFileRecord) := ret("keyvalue.(FileRecord).Data", 1, r.record)
+//@        implies(r.dataDone == 1 && r.dataErr == nil, r.data != nil) && implies(isMemRec(r.record), r.record.(mem.fileRecord).data != nil)
+// A record of the in-memory store is read directly (its methods are verified in package mem and dispatched to here);
+// any other record through the deterministic FileRecord interface contract.
+//@ spec isMemRec(rec FileRecord) := isType(rec, mem.fileRecord)
+//@ spec rawData(rec FileRecord) := ite(isMemRec(rec), rec.(mem.fileRecord).data, ret("keyvalue.(FileRecord).Data", 0, rec))
+//@ spec rawDataErr(rec FileRecord) := ite(isMemRec(rec), nil, ret("keyvalue.(FileRecord).Data", 1, rec))
+//@ spec rawMode(rec FileRecord) := ite(isMemRec(rec), rec.(mem.fileRecord).mode, ret("keyvalue.(FileRecord).Mode", 0, rec))
+//@ spec rawMTime(rec FileRecord) := ite(isMemRec(rec), rec.(mem.fileRecord).modTime, ret("keyvalue.(FileRecord).ModTime", 0, rec))
+//@ spec recDataBlob(r *runOnceFileRecord) := rawData(r.record)
+//@ spec recDataErr(r *runOnceFileRecord) := rawDataErr(r.record)
 //@ spec curBlob(r *runOnceFileRecord) := ite(r.dataDone == 1, payload(r.data), payload(recDataBlob(r)))
 //@ spec curBlobTag(r *runOnceFileRecord) := ite(r.dataDone == 1, tag(r.data), tag(recDataBlob(r)))
 
 //@ func (r *runOnceFileRecord) Data() (b blob.Blob, err error)
+//@   dispatch FileRecord mem.fileRecord
 //@   props C02 C14 C17
 //@   requires roInv(r)
 //@   modifies r.data, r.dataErr, r.dataDone, oncedone(r.dataOnce)
@@ -236,18 +244,20 @@ package keyvalue
 //@   pure
 //@   nopanic
 
-//@ spec modeOf(r *runOnceFileRecord) := ite(oncedone(r.modeOnce), r.mode, ret("keyvalue.(FileRecord).Mode", 0, r.record))
+//@ spec modeOf(r *runOnceFileRecord) := ite(oncedone(r.modeOnce), r.mode, rawMode(r.record))
 
 //@ func (r *runOnceFileRecord) Mode() (m hackpadfs.FileMode)
+//@   dispatch FileRecord mem.fileRecord
 //@   props C02 C01
 //@   requires r != nil && r.record != nil
 //@   modifies r.mode, oncedone(r.modeOnce)
 //@   ensures "mode" m == old(modeOf(r)) && r.mode == m && oncedone(r.modeOnce)
 //@   nopanic
 
-//@ spec mtimeOf(r *runOnceFileRecord) := ite(oncedone(r.modTimeOnce), r.modTime, ret("keyvalue.(FileRecord).ModTime", 0, r.record))
+//@ spec mtimeOf(r *runOnceFileRecord) := ite(oncedone(r.modTimeOnce), r.modTime, rawMTime(r.record))
 
 //@ func (r *runOnceFileRecord) ModTime() (t time.Time)
+//@   dispatch FileRecord mem.fileRecord
 //@   props C01
 //@   requires r != nil && r.record != nil
 //@   modifies r.modTime, oncedone(r.modTimeOnce)
@@ -288,11 +298,11 @@ package keyvalue
 //@ spec fdData(d *fileData) := ite(d.runOnceFileRecord.dataDone == 1, d.runOnceFileRecord.data, recDataBlob(d.runOnceFileRecord))
 //@ spec fdDataErr(d *fileData) := ite(d.runOnceFileRecord.dataDone == 1, d.runOnceFileRecord.dataErr, recDataErr(d.runOnceFileRecord))
 //@ spec fdInv(d *fileData) := d != nil && roInv(d.runOnceFileRecord)
-//@ spec srcOK(src FileRecord) := implies(isType(src, *fileData), fdInv(src.(*fileData)))
-//@ spec srcMode(src FileRecord) := ite(isType(src, *fileData), fdMode(src.(*fileData)), ret("keyvalue.(FileRecord).Mode", 0, src))
-//@ spec srcMTime(src FileRecord) := ite(isType(src, *fileData), fdMTime(src.(*fileData)), ret("keyvalue.(FileRecord).ModTime", 0, src))
-//@ spec srcData(src FileRecord) := ite(isType(src, *fileData), fdData(src.(*fileData)), ret("keyvalue.(FileRecord).Data", 0, src))
-//@ spec srcDataErr(src FileRecord) := ite(isType(src, *fileData), fdDataErr(src.(*fileData)), ret("keyvalue.(FileRecord).Data", 1, src))
+//@ spec srcOK(src FileRecord) := implies(isType(src, *fileData), fdInv(src.(*fileData))) && implies(isMemRec(src), src.(mem.fileRecord).data != nil)
+//@ spec srcMode(src FileRecord) := ite(isType(src, *fileData), fdMode(src.(*fileData)), rawMode(src))
+//@ spec srcMTime(src FileRecord) := ite(isType(src, *fileData), fdMTime(src.(*fileData)), rawMTime(src))
+//@ spec srcData(src FileRecord) := ite(isType(src, *fileData), fdData(src.(*fileData)), rawData(src))
+//@ spec srcDataErr(src FileRecord) := ite(isType(src, *fileData), fdDataErr(src.(*fileData)), rawDataErr(src))
 
 // ---- file handles (file.go) ----
 
@@ -331,6 +341,7 @@ package keyvalue
 //@                     iff(err == io.EOF, off + n == blob.blobLen(old(hData(f)))) && (err == nil || err == io.EOF))
 //@   ensures "inv" fileInv(f) && hDataOK(f) && implies(!f.closed && off >= 0, hData(f) == old(hData(f)) && hDataErr(f) == old(hDataErr(f)))
 //@   ensures "n-bounds" 0 <= n && implies(length >= 0, n <= length) && implies(length < 0 || b == nil, n == 0) && implies(n > 0, off + n <= 1<<62)
+//@   ensures "data-ok" hDataOK(f)
 //@   nopanic
 
 //@ spec readOK(f *file, off int64) := !f.closed && off >= 0 && hDataErr(f) == nil
@@ -349,6 +360,7 @@ package keyvalue
 //@   ensures "eof" implies(old(readOK(f, off)) && off < blob.blobLen(old(hData(f))), iff(err == io.EOF, off + n == blob.blobLen(old(hData(f)))) && (err == nil || err == io.EOF))
 //@   ensures "short-read-has-error" implies(n < len(p), err != nil)
 //@   ensures "inv" fileInv(f) && hDataOK(f) && f.offset == old(f.offset)
+//@   ensures "data-ok" hDataOK(f)
 //@   nopanic
 
 //@ func (f *file) Read(p []byte) (n int, err error)
@@ -363,6 +375,7 @@ package keyvalue
 //@   ensures "offset" f.offset == old(f.offset) + n && n >= 0
 //@   ensures "eof-only-at-end" implies(err == io.EOF && old(readOK(f, f.offset)), f.offset >= blob.blobLen(old(hData(f))))
 //@   ensures "inv" fileInv(f) && hDataOK(f)
+//@   ensures "data-ok" hDataOK(f)
 //@   nopanic
 
 //@ func (f *file) ReadBlob(length int) (b blob.Blob, n int, err error)
@@ -374,6 +387,7 @@ package keyvalue
 //@                     n == min(length, blob.blobLen(old(hData(f))) - old(f.offset)) && blob.isViewOf(b, old(hData(f)), old(f.offset), old(f.offset) + n))
 //@   ensures "offset" f.offset == old(f.offset) + n && n >= 0
 //@   ensures "inv" fileInv(f) && hDataOK(f)
+//@   ensures "data-ok" hDataOK(f)
 //@   nopanic
 
 //@ spec seekBase(f *file, whence int) := ite(whence == 0, 0, ite(whence == 1, f.offset, liveSize(fRec(f))))
@@ -428,7 +442,7 @@ package keyvalue
 //@ func (fs *FS) setFile(path string, file FileRecord) (err error)
 //@   props C14 C01 C03 C17
 //@   requires fsInv(fs) && (isMem(fs) || isSerial(fs)) && VP(path) && srcOK(file)
-//@   dispatch FileRecord *fileData
+//@   dispatch FileRecord *fileData mem.fileRecord
 //@   dispatch Transaction *mem.transaction *unsafeSerialTransaction
 //@   modifies world(), mapOf(ms(fs).records), held(ms(fs).mu),
 //@            fdCache(file).data, fdCache(file).dataErr, fdCache(file).dataDone, oncedone(fdCache(file).dataOnce),
@@ -486,6 +500,7 @@ package keyvalue
 //@                     errIs(old(storeGetErr(fsStore(f.fileData.fs), f.fileData.path)), hackpadfs.ErrNotExist))
 //@   ensures "namespace" [C17 C03] implies(isMem(f.fileData.fs), memSameExcept(f.fileData.fs, f.fileData.path))
 //@   ensures "no-resurrect" [C17] implies(isMem(f.fileData.fs) && !old(kvHas(f.fileData.fs, f.fileData.path)), !kvHas(f.fileData.fs, f.fileData.path))
+//@   ensures "data-ok" hDataOK(f)
 //@   nopanic
 
 //@ spec isAppend(f *file) := f.flag&hackpadfs.FlagAppend != 0
@@ -512,6 +527,7 @@ package keyvalue
 //@   ensures "inv" fileInv(f) && f.closed == old(f.closed)
 //@   ensures "namespace" [C17 C03] implies(isMem(f.fileData.fs), memSameExcept(f.fileData.fs, f.fileData.path))
 //@   ensures "no-resurrect" [C17] implies(isMem(f.fileData.fs) && !old(kvHas(f.fileData.fs, f.fileData.path)), !kvHas(f.fileData.fs, f.fileData.path))
+//@   ensures "data-ok" hDataOK(f)
 //@   nopanic
 
 //@ spec sizeConsistent(f *file) := implies(hDataErr(f) == nil, liveSize(fRec(f)) == blob.blobLen(hData(f)))
@@ -533,6 +549,7 @@ package keyvalue
 //@   ensures "inv" fileInv(f) && f.offset == old(f.offset) && f.closed == old(f.closed)
 //@   ensures "namespace" [C17 C03] implies(isMem(f.fileData.fs), memSameExcept(f.fileData.fs, f.fileData.path))
 //@   ensures "no-resurrect" [C17] implies(isMem(f.fileData.fs) && !old(kvHas(f.fileData.fs, f.fileData.path)), !kvHas(f.fileData.fs, f.fileData.path))
+//@   ensures "data-ok" hDataOK(f)
 //@   nopanic
 
 //@ func (f *file) Truncate(size int64) (err error)
@@ -550,6 +567,7 @@ package keyvalue
 //@   ensures "inv" fileInv(f) && f.offset == old(f.offset) && f.closed == old(f.closed)
 //@   ensures "namespace" [C17 C03] implies(isMem(f.fileData.fs), memSameExcept(f.fileData.fs, f.fileData.path))
 //@   ensures "no-resurrect" [C17] implies(isMem(f.fileData.fs) && !old(kvHas(f.fileData.fs, f.fileData.path)), !kvHas(f.fileData.fs, f.fileData.path))
+//@   ensures "data-ok" hDataOK(f)
 //@   nopanic
 
 //@ func (f *file) Chmod(mode hackpadfs.FileMode) (err error)
@@ -615,6 +633,7 @@ package keyvalue
 //@   ensures "inv" fileInv(f) && f.closed == old(f.closed)
 //@   ensures "namespace" [C17 C03] implies(isMem(f.fileData.fs), memSameExcept(f.fileData.fs, f.fileData.path))
 //@   ensures "no-resurrect" [C17] implies(isMem(f.fileData.fs) && !old(kvHas(f.fileData.fs, f.fileData.path)), !kvHas(f.fileData.fs, f.fileData.path))
+//@   ensures "data-ok" hDataOK(f)
 //@   nopanic
 
 //@ func (f *file) WriteAt(p []byte, off int64) (n int, err error)
@@ -634,6 +653,7 @@ package keyvalue
 //@   ensures "inv" fileInv(f) && f.offset == old(f.offset) && f.closed == old(f.closed)
 //@   ensures "namespace" [C17 C03] implies(isMem(f.fileData.fs), memSameExcept(f.fileData.fs, f.fileData.path))
 //@   ensures "no-resurrect" [C17] implies(isMem(f.fileData.fs) && !old(kvHas(f.fileData.fs, f.fileData.path)), !kvHas(f.fileData.fs, f.fileData.path))
+//@   ensures "data-ok" hDataOK(f)
 //@   nopanic
 
 // ---- access-mode wrappers (file_rwonly.go) ----
@@ -732,7 +752,7 @@ package keyvalue
 //@ spec ms(fs *FS) := memStoreOf(fsStore(fs))
 //@ spec kvHas(fs *FS, p string) := in(p, dom(ms(fs).records))
 //@ spec kvRec(fs *FS, p string) := ms(fs).records[p]
-//@ spec fsInv(fs *FS) := fs != nil && fs.store != nil && fsStore(fs) != nil && storeUnlocked(fsStore(fs))
+//@ spec fsInv(fs *FS) := fs != nil && fs.store != nil && fsStore(fs) != nil && storeUnlocked(fsStore(fs)) && implies(isMem(fs), mem.storeInv(ms(fs)))
 //@ spec freshHandle(f *file, fs *FS, path string) := f != nil && fresh(f) && f.fileData != nil && fresh(f.fileData) && f.fileData.path == path && f.fileData.fs == fs &&
 //@        f.offset == 0 && !f.closed && f.fileData.modeOverride == nil && f.fileData.modTimeOverride == 0 &&
 //@        fRec(f).dataDone == 0 && !oncedone(fRec(f).dataOnce) && !oncedone(fRec(f).dirNamesOnce) && !oncedone(fRec(f).modeOnce) && !oncedone(fRec(f).modTimeOnce) && !oncedone(fRec(f).sysOnce)
@@ -743,10 +763,34 @@ package keyvalue
 //@   dispatch Transaction *mem.transaction *unsafeSerialTransaction
 //@   modifies world()
 //@   ensures "gate" implies(!VP(path), f == nil && err == hackpadfs.ErrInvalid && world() == old(world()))
-//@   ensures "mem-hit" implies(VP(path) && isMem(fs) && kvHas(fs, path), err == nil && freshHandle(f, fs, path) && f.flag == 0 && fRec(f).record == kvRec(fs, path))
+//@   ensures "mem-hit" implies(VP(path) && isMem(fs) && kvHas(fs, path), err == nil && freshHandle(f, fs, path) && f.flag == 0 && fRec(f).record == kvRec(fs, path) && mem.recOK(fRec(f).record, ms(fs), path))
 //@   ensures "mem-miss" implies(VP(path) && isMem(fs) && !kvHas(fs, path), err == hackpadfs.ErrNotExist)
 //@   ensures "mem-world" implies(isMem(fs), world() == old(world()))
 //@   ensures "serial" implies(VP(path) && isSerial(fs), freshHandle(f, fs, path) && fRec(f).record == old(storeGetRec(fsStore(fs), path)) &&
 //@                      err == old(storeGetErr(fsStore(fs), path)) && world() == old(storeGetW(fsStore(fs), path)))
 //@   ensures "result" implies(err == nil, f != nil)
+//@   nopanic
+
+// ---- FS operations (fs.go) ----
+// Every operation: invalid names are refused before anything is touched (C04); failures are *PathError values naming
+// the caller's path (C05); a store failure surfaces (C14); in the mem world the effect on the record map is stated in full.
+
+//@ spec infoOf(info hackpadfs.FileInfo) := info.(fileInfo)
+//@ spec infoRec(info hackpadfs.FileInfo) := infoOf(info).Record.(*fileData)
+//@ spec pathErr(err error, op string, name string) := isPathError(err) && opOf(err) == op && pathOf(err) == name
+
+//@ func (fs *FS) Stat(name string) (info hackpadfs.FileInfo, err error)
+//@   props C01 C04 C05 C14 C03
+//@   requires fsOK(fs)
+//@   modifies world()
+//@   ensures "gate" [C04] implies(!VP(name), info == nil && pathErr(err, "stat", name) && errIs(err, hackpadfs.ErrInvalid) && world() == old(world()))
+//@   ensures "typed" [C05] implies(err != nil, info == nil && pathErr(err, "stat", name))
+//@   ensures "mem-hit" implies(VP(name) && isMem(fs) && kvHas(fs, name), err == nil && isType(info, fileInfo) && infoOf(info).Path == name && isType(infoOf(info).Record, *fileData) &&
+//@                     infoRec(info) != nil && fresh(infoRec(info)) && infoRec(info).record == kvRec(fs, name) && infoRec(info).modeOverride == nil && infoRec(info).modTimeOverride == 0 &&
+//@                     !oncedone(infoRec(info).modeOnce) && !oncedone(infoRec(info).modTimeOnce) && infoRec(info).dataDone == 0)
+//@   ensures "mem-miss" implies(VP(name) && isMem(fs) && !kvHas(fs, name), errIs(err, hackpadfs.ErrNotExist))
+//@   ensures "mem-world" implies(isMem(fs), world() == old(world()))
+//@   ensures "serial" [C14] implies(VP(name) && isSerial(fs), iff(err == nil, old(storeGetErr(fsStore(fs), name)) == nil) && world() == old(storeGetW(fsStore(fs), name)) &&
+//@                     implies(err != nil, innerErr(err) == old(storeGetErr(fsStore(fs), name))))
+//@   ensures "inv" fsInv(fs)
 //@   nopanic
